@@ -119,6 +119,8 @@ func zzCheckFuncode(got, want *Funcode, prog *Program) {
 // DecodeProgram(Encode(p)) is field-for-field equal to p, back pointers are set,
 // the re-encoding is byte-identical, and one extra trailing byte in either
 // section is rejected.
+//
+//verif:maxpaths 600
 func zzH17_roundtrip() {
 	// which function carries symbolic booleans (each symbolic bool forks in b2i)
 	flags := zzChoice("flags", 3)
